@@ -688,7 +688,8 @@ class HTTP1Connection(httputil.HTTPConnection):
                             await ret
             # chunk ends with \r\n
             crlf = await self.stream.read_bytes(2)
-            assert crlf == b"\r\n"
+            if crlf != b"\r\n":
+                raise httputil.HTTPInputError("improperly terminated chunk")
 
     async def _read_body_until_close(
         self, delegate: httputil.HTTPMessageDelegate
